@@ -26,6 +26,6 @@ SPEC = {
 
 MANIFEST = {
     "technique": "Coq proof (structural induction over partial trees: any partial tree whose recomputed hash equals the root is the real tree with subtrees replaced by hashes, or yields an explicit hash collision; lookup in a pruned tree refines lookup in the tree; the fused SyncGet builder is parsed back by the verifier) with differential correspondence check and an independent implementation-side oracle over mutated, spliced and fabricated proofs",
-    "level_text": "Theorems in coq/Props/C04.v (incl. the remote-backed reader: any sequence of responses accepted as cache.remoteSync does and merged by hash equality keeps every Get answer equal to the full replica's or an error, for an unbounded cache; the bounded-cache partial removal is refuted by a witness; the SyncIterate / SyncGetPrefixes builders are ported on top of the Mkvs/Iter.v machine: a reader walking the verified proof with the ported iterator meets no hash and obtains the true first n+1 entries / what the prefix loop obtains on the full replica; iteration over the remote-backed reader is ordered-safe) hold for every hash function with 32-byte output, every tree, key, proof version and EVERY list of decoded entries (so every altered, truncated, extended, reordered, spliced or fabricated proof): an accepted list reconstructs a pruning of the real tree or exhibits a collision (verify_sound, hash_prunes); lookups in a pruning, both the natural walk and the port of Go's doGet/derefNodePtr walk, never report a value or an absence contrary to the contents (plookup_sound, plookup_go_sound, proof_cannot_lie); the write log only holds real entries; all entries are consumed and recursion depth is bounded. The proof SyncGet builds (versions 0/1, siblings on/off) is accepted and determines its key with the true answer for every tree of at most 129 entry levels (get_proof_complete, get_proof_complete_go_v0); without that bound completeness is refuted by a 130-key witness, which the harness reproduces on the real code. The model is tied to the code by comparing real SyncGet proofs entry-for-entry with the model builder and by running thousands of mutants of real get/iterate/prefix proofs through the real verifier and a remote-backed tree, comparing verdict, write log and answers with the model evaluated in Coq; an oracle independent of Coq checks that no accepted candidate and no remote-backed session ever answers contrary to the full replica.",
+    "level_text": "Theorems in coq/Props/C04.v (incl. the remote-backed reader: any sequence of responses accepted as cache.remoteSync does and merged by hash equality keeps every Get answer equal to the full replica's or an error, for an unbounded cache; the bounded-cache partial removal is refuted by a witness; the SyncIterate / SyncGetPrefixes builders are ported on top of the Mkvs/Iter.v machine: a reader walking the verified proof with the ported iterator meets no hash and obtains the true first n+1 entries / what the prefix loop obtains on the full replica; iteration over the remote-backed reader is ordered-safe; the lock of cache.tryRemoveNode protects everything the running query still has to read, refuted for the swapped check order) hold for every hash function with 32-byte output, every tree, key, proof version and EVERY list of decoded entries (so every altered, truncated, extended, reordered, spliced or fabricated proof): an accepted list reconstructs a pruning of the real tree or exhibits a collision (verify_sound, hash_prunes); lookups in a pruning, both the natural walk and the port of Go's doGet/derefNodePtr walk, never report a value or an absence contrary to the contents (plookup_sound, plookup_go_sound, proof_cannot_lie); the write log only holds real entries; all entries are consumed and recursion depth is bounded. The proof SyncGet builds (versions 0/1, siblings on/off) is accepted and determines its key with the true answer for every tree of at most 129 entry levels (get_proof_complete, get_proof_complete_go_v0); without that bound completeness is refuted by a 130-key witness, which the harness reproduces on the real code. The model is tied to the code by comparing real SyncGet proofs entry-for-entry with the model builder and by running thousands of mutants of real get/iterate/prefix proofs through the real verifier and a remote-backed tree, comparing verdict, write log and answers with the model evaluated in Coq; an oracle independent of Coq checks that no accepted candidate and no remote-backed session ever answers contrary to the full replica.",
     "level_note": "Trusted: Coq kernel; the harness; node.UnmarshalBinary for the projection to structured entries; Go's SHA-512/256 for the digest table. Not covered by the theorems: collision resistance; byte-level decoding (C16) and CBOR framing; iterate/prefix proof builders and the LRU cache / merge into a populated cache (exercised by the remote sessions and the oracle only); keys >= 8192 bytes.",
 }
